@@ -121,6 +121,12 @@ RAW = [
 _N = [0]
 
 
+def _hmodel():
+    from . import c04
+
+    return c04.HModel(derives=("derive-helper", "derive-helper-closure"))
+
+
 class C05(Check):
     pid = "C05"
     title = "Captured one-line helper functions are inlined faithfully"
@@ -155,11 +161,31 @@ class C05(Check):
             return out
         Q = tier == "quick"
         nmax = 5 if Q else 6
-        return [Space("helpers", {"signatures": [list(k) for k in BODIES], "forms": FORMS}, cases, runner="run_case"),
+        hdepth = 4 if Q else 5
+        return [Space(f"helper-histories<={hdepth}",
+                      {"depth": hdepth, "ops": ["derive with a helper that reads a module global", "derive with a helper that reads "
+                                                 "its enclosing function's variable", "rebind either variable", "delete the global", "execute"],
+                       "oracle": "every query holds the helper's value AT THE CALL (the same function object is used for every derive)"},
+                      (lambda hdepth=hdepth: [("hist", hdepth, (op,)) for op in _hmodel().enabled(_hmodel().fresh())]),
+                      runner="run_hist"),
+                Space("helpers", {"signatures": [list(k) for k in BODIES], "forms": FORMS}, cases, runner="run_case"),
                 Space(f"enumerated-bodies<={nmax}", {"body_grammar": "E1 productions attr op + app tup const First Count over the "
                                                      "parameters (x: Jet[, y: Int]); every admissible naming of inner binders from "
                                                      "{x, y, t}", "size": nmax, "forms": ["def1"] if Q else ["def1", "lambda"]},
                       (lambda nmax=nmax, Q=Q: enumerated(nmax, ("def1",) if Q else ("def1", "lambda"))), runner="run_enum")]
+
+    def run_hist(self, payload):
+        from .. import explore
+
+        _, depth, prefix = payload
+        prefix = tuple(tuple(op) if isinstance(op, list) else op for op in prefix)
+        r = explore.explore(_hmodel(), prefix, depth)
+        res = {"n": r["trans"], "nt": [f"hist|{prefix}|{i}" for i in range(min(3, r["trans"]))], "oc": [],
+               "tags": dict(r["ops"]), "viol": [],
+               "sample_text": f"subtree below {prefix}: {len(r['states'])} states, {r['trans']} transitions"}
+        for v in r["viol"]:
+            res["viol"].append({"kind": v["kind"], "canon": repr(v["hist"]), "msg": v["msg"]})
+        return res
 
     def run_enum(self, payload):
         sig, body, form, site = payload
